@@ -44,7 +44,6 @@ MICRO_UNDECIDED = {
     "C12-mic3-4": "LAY-4: the set of parents is built by a loop of add() instead of a comprehension - the instance is not counted",
     "C14-mic3-10": "CACHE-1/2: the cache is written through __setitem__ - the store is not recognised",
     "C17-mic3-1": "LOAD-2: the loop over process_path(...) runs over enumerate(..., 1) - the anchor is not found",
-    "C11-mic3-9": "SIB-2: pydantic's alias is attached in one arm of a conditional expression",
 }
 # behaviour-preserving micro-edits of the third round (written to be hard for a tool that works on the syntax tree) on which a
 # recogniser still prints a VIOLATION: the false alarms that are left, each with the respelling that causes it (DESIGN.md 10.7)
